@@ -137,7 +137,7 @@ def _parts(n, **kw):
 
 @harness(P, quick=[dict(nk=a, nth=b, ihmax=h) for (a, b) in ((1, 2), (2, 1), (2, 2), (2, 3)) for h in (1, 2, 3)] + [dict(nk=a, nth=b, ihmax=h) for (a, b) in ((1, 4), (4, 1)) for h in (2, 3)] + [dict(nk=3, nth=2, ihmax=2), dict(nk=1, nth=1, ihmax=2)],
          thorough=[dict(nk=a, nth=b, ihmax=2) for (a, b) in SHAPES_T] + [dict(nk=a, nth=b, ihmax=3) for (a, b) in ((1, 6), (6, 1))] + [dict(nk=3, nth=2, ihmax=3), dict(nk=3, nth=2, ihmax=4), dict(nk=1, nth=4, ihmax=4), dict(nk=4, nth=1, ihmax=4)],
-         max_paths=20000, max_paths_thorough=200000, time_budget=420, time_budget_thorough=3300, hard_timeout=800, hard_timeout_thorough=3600, witnesses=3)
+         max_paths=20000, max_paths_thorough=200000, time_budget=330, time_budget_thorough=3300, hard_timeout=600, hard_timeout_thorough=3600, witnesses=3)
 def watershed(env, nk, nth, ihmax):
     """valid watershed map on every path: all bins labelled, one connected basin per regional maximum of the
     discretised field, equivariant under circular shifts of the direction axis; no memory-safety violation."""
@@ -263,7 +263,7 @@ def neighbour_table(env, maxn):
 @harness(P, quick=[dict(first=a, second=b, ihmax=2) for a, b in (((2, 3), (3, 2)), ((1, 4), (2, 2)), ((2, 2), (1, 4)), ((3, 2), (1, 6)), ((2, 2), (2, 3)), ((2, 3), (2, 2)))]
          + [dict(first=(1, 4), mid=(4, 1), second=(2, 3), ihmax=2), dict(first=(1, 3), mid=(3, 1), second=(3, 3), ihmax=2), dict(first=(3, 1), mid=(1, 4), second=(3, 2), ihmax=2)],
          thorough=[dict(first=a, second=b, ihmax=3) for a, b in (((2, 3), (3, 2)), ((3, 2), (2, 3)), ((1, 6), (3, 2)), ((2, 2), (4, 1)))]
-         + [dict(first=(1, 4), mid=(4, 1), second=(4, 2), ihmax=2), dict(first=(4, 1), mid=(1, 4), second=(2, 4), ihmax=2), dict(first=(2, 2), mid=(1, 6), second=(3, 2), ihmax=3)], max_paths=20000, time_budget=500, hard_timeout=900)
+         + [dict(first=(1, 4), mid=(4, 1), second=(4, 2), ihmax=2), dict(first=(4, 1), mid=(1, 4), second=(2, 4), ihmax=2), dict(first=(2, 2), mid=(1, 6), second=(3, 2), ihmax=3)], max_paths=20000, time_budget=300, hard_timeout=600, time_budget_thorough=900, hard_timeout_thorough=1200)
 def consecutive_calls(env, first, second, ihmax, mid=None):
     """history independence of the static work buffers: a call after one (or two: `mid`) calls with other shapes
     gives what a fresh process gives for it (C18), without memory errors (C20)."""
